@@ -18,9 +18,9 @@ SUBTYPES = ("float64", "float32", "int64", "int32", "int16")
 TRANSFORMS = {
     "float64": [(1, 0, 0), (0.25, 3, -5), (8, -1000, 77), (1024, 2 ** 24, -(2 ** 24)),
                 (1, 2 ** 25 - 64, -(2 ** 25 - 64)), (0.25, -(2 ** 20), 2 ** 20)],
-    # float32 arithmetic inside the kernels (e.g. coordinate * difference in the area kernel) must
-    # stay within 24 bits, so magnitudes are kept small
-    "float32": [(1, 0, 0), (0.25, 3, -5), (8, -100, 77), (1, 500, -500)],
+    # float32 values must be exactly representable (24-bit significand); the kernels compute on
+    # differences (small) and promote to float64 for measures
+    "float32": [(1, 0, 0), (0.25, 3, -5), (8, -100, 77), (1, 500, -500), (1, 2 ** 22, -(2 ** 22))],
     "int64": [(1, 0, 0), (8, -1000, 77), (1024, 2 ** 24, -(2 ** 24)), (1, 2 ** 25 - 64, -(2 ** 25 - 64))],
     "int32": [(1, 0, 0), (8, -1000, 77), (1024, 2 ** 24, -(2 ** 24)), (1, 2 ** 25 - 64, -(2 ** 25 - 64))],
     "int16": [(1, 0, 0), (8, -1000, 77), (1, 30000, -30000), (2, -20000, 15000)],
